@@ -83,6 +83,8 @@ func apiOfKind(kind string) string {
 		return "Flush"
 	case "tick":
 		return "flusher"
+	case "update-window":
+		return "update-window"
 	}
 	return kind
 }
@@ -108,6 +110,12 @@ func evalCrashState(k int, seq int, rng *Rng, cfg Config, snap *fsSnapshot, info
 			mode = "async"
 		}
 		sig := fmt.Sprintf("C05|%s|%s|%s|%s", clause, api, mode, site)
+		if api == "update-window" && (clause == "stale-index-unnoticed" || clause == "stale-index-after-repair") {
+			// one defect, many windows: the state is identified by what the
+			// independent decoder sees (an index tuple that differs from the
+			// value in the object's file), not by where the crash happened
+			sig = fmt.Sprintf("C05|stale-index|update-window|%s|-", mode)
+		}
 		return &Violation{Sig: sig, Clause: clause, Api: api, Step: snap.Step,
 			Detail: fmt.Sprintf("crash after FS event %s %s of %s (step %d, %s), configuration %s\n%s", snap.Op, snap.Phase, snap.Path, snap.Step, info.kind, cfg.String(), detail),
 			Trace:  parent.trace}
@@ -201,6 +209,7 @@ func evalCrashState(k int, seq int, rng *Rng, cfg Config, snap *fsSnapshot, info
 	if ok, v := w.try(func() {
 		w.ReadSweep()
 		w.SearchSweep(40)
+		w.IndexedEqualitySweep()
 		w.Invariants("index")
 	}); !ok {
 		clause := "stale-index-unnoticed"
